@@ -1,5 +1,5 @@
 (* C09 - an inbound QoS 2 message is delivered to the application exactly once. *)
-From Poster Require Import Model.Client Proofs.ClientP Proofs.HandshakeP Proofs.StreamP.
+From Poster Require Import Model.Client Proofs.ClientP Proofs.HandshakeP Proofs.StreamP Proofs.IndepP.
 
 (* a re-delivery - the identifier was answered with PUBREC and its PUBREL has not arrived: PUBREC
    is written again, no stream receives anything, the awaited set is unchanged *)
@@ -51,3 +51,19 @@ Example C09_spec_scenario :
   let rel := mkrx KPubrel false false false 0 7 0 [] [] [] [] in
   spec_deliveries [] 1 [pk false [65]; pk true [65]; pk true [65]; rel; pk false [66]; pk true [66]] = [pk false [65]; pk false [66]].
 Proof. vm_compute. reflexivity. Qed.
+
+(* ---- what does NOT touch the identifiers awaiting PUBREL (Proofs/IndepP.v) -------------------------------------------------
+   The two directions number their exchanges independently: an acknowledgement of one of the client's own operations
+   (PUBACK, PUBREC, PUBCOMP, SUBACK, UNSUBACK, PINGRESP), whatever identifier it bears, leaves them alone; so does every
+   request of the application; so does a CONNACK, accepted or refused (only an expired session is forgotten, C17_expired). *)
+Theorem C09_own_exchanges_apart : forall (s : sys) (p : rxpkt),
+  match rk p with KPublish | KPubrel => False | _ => True end ->
+  await_rel (c (fst (handle_packet s p))) = await_rel (c s).
+Proof. exact outbound_acks_keep_await_rel. Qed.
+Print Assumptions C09_own_exchanges_apart.
+Theorem C09_requests_apart : forall (s : sys) (m : cmsg), await_rel (c (fst (handle_message s m))) = await_rel (c s).
+Proof. exact message_keeps_await_rel. Qed.
+Print Assumptions C09_requests_apart.
+Theorem C09_survives_connack : forall (x : ctx) (p : rxpkt), await_rel (handle_connack x p) = await_rel x.
+Proof. intros x p. exact (proj1 (proj2 (proj2 (proj2 (connack_keeps_session x p))))). Qed.
+Print Assumptions C09_survives_connack.
